@@ -34,6 +34,10 @@ const (
 
 type env map[string]string
 
+// rmode: second translation of the same functions with every float `-` and `/` rounded by an abstract
+// rounding function `rnd : Rat → Rat` (namespace GeomV.C02.GenR; see ProofsFloat.lean)
+var rmode bool
+
 type xerr struct{ msg string }
 
 func fail(f string, a ...interface{}) { panic(xerr{fmt.Sprintf(f, a...)}) }
@@ -93,6 +97,9 @@ func trExpr(x ast.Expr, e env) (string, kind) {
 		if ka != kPt || kb != kPt {
 			fail("pointSubtract of non-points")
 		}
+		if rmode {
+			return "pointSubtract rnd " + a + " " + b, kPt
+		}
 		return "pointSubtract " + a + " " + b, kPt
 	case *ast.CompositeLit:
 		id, ok := t.Type.(*ast.Ident)
@@ -125,10 +132,16 @@ func trExpr(x ast.Expr, e env) (string, kind) {
 			if kl != kRat || kr != kRat {
 				fail("subtraction of non-coordinates")
 			}
+			if rmode {
+				return "(rnd (" + l + " - " + r + "))", kRat
+			}
 			return "(" + l + " - " + r + ")", kRat
 		case token.QUO:
 			if kl != kRat || kr != kRat {
 				fail("division of non-coordinates")
+			}
+			if rmode {
+				return "(fdivR rnd " + l + " " + r + ")", kFQ
 			}
 			return "(fdiv " + l + " " + r + ")", kFQ
 		case token.LSS, token.GTR, token.LEQ, token.GEQ, token.EQL:
@@ -265,6 +278,9 @@ func trFunc(fd *ast.FuncDecl) string {
 	}
 	fresh := 0
 	body := trStmts(fd.Body.List, env{}, "  ", &fresh)
+	if rmode {
+		return fmt.Sprintf("def %s (rnd : Rat → Rat) (%s : P) : %s :=\n%s\n", fd.Name.Name, strings.Join(params, " "), lret, body)
+	}
 	return fmt.Sprintf("def %s (%s : P) : %s :=\n%s\n", fd.Name.Name, strings.Join(params, " "), lret, body)
 }
 
@@ -283,24 +299,31 @@ func extract(repo string) (out string, err error) {
 	var b strings.Builder
 	b.WriteString("import GeomV.C02.Model\n/-! GENERATED by `harness/cmd/c02 extract` from simplify.go and within.go of the tree under test.\nDo not edit; regenerated by every `bin/check C02` run (checks/C02.py pregen). -/\nnamespace GeomV.C02.Gen\nopen GeomV GeomV.C02\n\n")
 	fset := token.NewFileSet()
-	for _, wn := range want {
-		f, perr := parser.ParseFile(fset, filepath.Join(repo, wn.file), nil, 0)
-		if perr != nil {
-			return "", perr
+	for pass := 0; pass < 2; pass++ {
+		rmode = pass == 1
+		if rmode {
+			b.WriteString("end GeomV.C02.Gen\n\n/-! the same functions with every float `-` and `/` rounded by `rnd` -/\nnamespace GeomV.C02.GenR\nopen GeomV GeomV.C02\n\n")
 		}
-		found := false
-		for _, d := range f.Decls {
-			if fd, ok := d.(*ast.FuncDecl); ok && fd.Recv == nil && fd.Name.Name == wn.fn {
-				b.WriteString(trFunc(fd))
-				b.WriteString("\n")
-				found = true
+		for _, wn := range want {
+			f, perr := parser.ParseFile(fset, filepath.Join(repo, wn.file), nil, 0)
+			if perr != nil {
+				return "", perr
+			}
+			found := false
+			for _, d := range f.Decls {
+				if fd, ok := d.(*ast.FuncDecl); ok && fd.Recv == nil && fd.Name.Name == wn.fn {
+					b.WriteString(trFunc(fd))
+					b.WriteString("\n")
+					found = true
+				}
+			}
+			if !found {
+				return "", fmt.Errorf("%s: function %s not found", wn.file, wn.fn)
 			}
 		}
-		if !found {
-			return "", fmt.Errorf("%s: function %s not found", wn.file, wn.fn)
-		}
 	}
-	b.WriteString("end GeomV.C02.Gen\n")
+	rmode = false
+	b.WriteString("end GeomV.C02.GenR\n")
 	return b.String(), nil
 }
 
